@@ -1,13 +1,50 @@
-(** C02: calls to an actor run in the order made, gated by its lifecycle (Layer R) -- PARTIAL.
-    Proved: the gating and ordering facts of the machine at the level of one queue item, and the agreement of the
-    packed state bits (translated rc/count.rs) with the (count, state) pair.  Not yet proved: the trace-level
-    statement [forall p fuel t, exec d fuel p = Done t -> C02_ok t = true] (validated by ./check C02 on every real
-    and model trace).  See docs/layer_r.md. *)
+(** C02: calls to an actor run in the order made, gated by its lifecycle (Layer R).
+    Proved for every program of the DSL and every amount of fuel (global / thread-local deferrer), on terminated
+    executions in which the model never flagged an access to an actor cell that is not in its table
+    ([EModel M_UAF]; see below): the monitor C02_ok (coq/R/Mon.v) holds of the trace.  That is:
+    - a method call starts (EMeth a u) only while actor a is Ready, only if u is the OLDEST call to a that was
+      queued and has neither started nor been dropped (calls held while a was in Prep included), and only once;
+    - a Prep call starts (EPrep a u) only while a is in Prep, once;
+    - an actor becomes Ready (EReady a) only from Prep;
+    - a queued call is discarded (EDrop u (Some _) true) only if its target has been notified as terminated, or
+      the queues are being torn down (Stakker created / dropped), or else the termination notification of the
+      target comes before anything else starts and before run returns.
+    The remaining hypothesis: the model has defensive branches "the target cell of this item is not in the actor
+    table" that emit EModel M_UAF; they are unreachable from the DSL (an item or handle keeps its cell), the
+    differential check has never seen the event in a model trace, but that is not proved yet -- hence _partial.
+    See coq/R/C02Proofs.v and docs/layer_r.md. *)
 From Coq Require Import ZArith NArith List.
 Import ListNotations.
-From Stk Require Import Lib.U Gen.SrcCount R.Syntax R.Rt R.Mon R.Count R.OneStep.
+From Stk Require Import Lib.U Gen.SrcCount R.Syntax R.Rt R.Mon R.Count R.OneStep R.C02Proofs.
 Local Open Scope Z_scope.
 
+Theorem C02_fifo_lifecycle_partial : forall (p : list top) (fuel : nat) (t : list ev),
+  exec DGlobal fuel p = Done t -> (forall a, ~ In (EModel M_UAF a) t) -> C02_ok t = true.
+Proof. exact C02_proved. Qed.
+Print Assumptions C02_fifo_lifecycle_partial.
+
+Example C02_example :
+  exists t, exec DGlobal 600
+    [TNew 0;
+     TDo [ANewActor 1 1 None; ACall 1 (Clo 1 0 0 [] []); ACall 1 (Clo 2 0 0 [] []); ACallPrep 1 (Clo 3 0 0 [] []) true;
+          ANewActor 2 2 None; ACall 2 (Clo 4 0 0 [] []); ACallPrep 2 (Clo 5 0 0 [] [AFail 7]) false];
+     TRun 2 false] = Done t
+    /\ (forall a, ~ In (EModel M_UAF a) t)
+    /\ In (EReady 1%N) t /\ In (EMeth 1%N 1%N 2) t /\ In (EMeth 1%N 2%N 2) t
+    /\ In (EDrop 4%N (Some QMain) true) t /\ In (ENotify 2%N (Some (CFail 7%N))) t.
+Proof. exact C02_nontrivial. Qed.
+
+(* the monitor rejects: a call overtaking an earlier one; a method started on an actor that is not Ready; a
+   discarded call without the termination notification of its target before run returns *)
+Example C02_monitor_table :
+  C02_ok [EActor 1; ETarget 1 1 false; ETarget 2 1 false; ESub QMain 1 true; ESub QMain 2 true; EReady 1; EMeth 1 1 0; EMeth 1 2 0] = true /\
+  C02_ok [EActor 1; ETarget 1 1 false; ETarget 2 1 false; ESub QMain 1 true; ESub QMain 2 true; EReady 1; EMeth 1 2 0; EMeth 1 1 0] = false /\
+  C02_ok [EActor 1; ETarget 1 1 false; ESub QMain 1 true; EMeth 1 1 0] = false /\
+  C02_ok [EActor 1; ETarget 1 1 false; ESub QMain 1 true; EReady 1; EDrop 1 (Some QMain) true; ERunRet false] = false /\
+  C02_ok [EActor 1; ETarget 1 1 false; ESub QMain 1 true; EReady 1; EDrop 1 (Some QMain) true; ENotify 1 None; ERunRet false] = true.
+Proof. exact C02_monitor_rejects. Qed.
+
+(* one-item facts about the machine (kept from the earlier partial result) *)
 Theorem C02_order_gating_partial :
   (* a Ready call starts only on a Ready actor, is held at the END of the held list of a Prep actor, and is
      discarded for a Zombie *)
